@@ -4,7 +4,8 @@
    Model: coq/model/Calculus.v (run_op, grad_v, div_v, curl_v, lap_v over Diff.diff_nd = C04's operator). *)
 From Coq Require Import Qcanon.
 From DF Require Import Prelude FieldK NDArray Diff Calculus C04_proofs
-     C05_stencil C05_identities C05_exact C05_refuse Rotate90 C05_mirror C05_rot C05_commute.
+     C05_stencil C05_identities C05_exact C05_refuse Rotate90 C05_mirror C05_rot C05_commute
+     CheckSound Check_C05 C05_sound.
 
 (* ===== textbook combinations; components paired with axes through the mapping ===== *)
 
@@ -412,3 +413,273 @@ Proof.
   split; [right; exists "nope"%string; split; reflexivity|]. split; [left; reflexivity | reflexivity].
 Qed.
 Print Assumptions C05_refusals_nonvacuous.
+
+
+(* ===== soundness of the correspondence checker, and the theorems above on OBSERVED outputs =====
+   check_C05 (Check_C05.v) is proved, not only read: an accepted case certifies that the implementation
+   raised exactly when the model refuses, and otherwise returned the model's number of components, the
+   model's array (exact regime: equal; scale regime: every entry within c05_tol * c05_scale) and labels that
+   say what the property says.  c05M / c05f / c05v / c05_run (C05_sound.v) are the mesh, the value array,
+   the validity mask and the run_op call that the checker builds from the recorded inputs. *)
+Theorem C05_check_sizes_sound : forall exact op sh cell per dims nv vdims vmap vals valid obs,
+  check_C05 (COp exact op sh cell per dims nv vdims vmap vals valid obs) = true ->
+  length vals = nprod (sh ++ [nv]) /\ length valid = nprod sh /\
+  length cell = length sh /\ length per = length sh /\ length dims = length sh.
+Proof. exact check_op_sizes. Qed.
+Print Assumptions C05_check_sizes_sound.
+
+Theorem C05_check_raised_sound : forall exact op sh cell per dims nv vdims vmap vals valid,
+  check_C05 (COp exact op sh cell per dims nv vdims vmap vals valid None) = true ->
+  exists e, c05_run op sh cell per dims nv vdims vmap vals valid = Err e.
+Proof. exact check_op_reject_sound. Qed.
+Print Assumptions C05_check_raised_sound.
+
+(* c05_arr_ok true = the observed array IS the model's; c05_arr_ok false = same length and every entry within
+   c05_tol * c05_scale; c05_labels_ok = the expected axes are the ones the result's labels say, and the vector
+   Laplacian keeps the labels *)
+Theorem C05_check_returned_sound : forall exact op sh cell per dims nv vdims vmap vals valid onv oarr ovdims ovmap,
+  check_C05 (COp exact op sh cell per dims nv vdims vmap vals valid (Some (onv, oarr, ovdims, ovmap))) = true ->
+  exists r, c05_run op sh cell per dims nv vdims vmap vals valid = OK (onv, r) /\
+    c05_arr_ok exact op sh cell vals (to_list (sh ++ [onv]) r) oarr /\
+    c05_labels_ok op (length sh) nv vdims vmap dims ovdims ovmap.
+Proof. exact check_op_sound. Qed.
+Print Assumptions C05_check_returned_sound.
+
+Theorem C05_check_exact_entries_sound : forall op sh cell per dims nv vdims vmap vals valid onv oarr ovdims ovmap,
+  check_C05 (COp true op sh cell per dims nv vdims vmap vals valid (Some (onv, oarr, ovdims, ovmap))) = true ->
+  exists r, c05_run op sh cell per dims nv vdims vmap vals valid = OK (onv, r) /\
+    forall i, inb (sh ++ [onv]) i = true -> nth (ravel (sh ++ [onv]) i) (qcl oarr) 0%Qc = r i.
+Proof. exact accepted_entry. Qed.
+Print Assumptions C05_check_exact_entries_sound.
+
+Theorem C05_check_scale_entries_sound : forall op sh cell per dims nv vdims vmap vals valid onv oarr ovdims ovmap,
+  check_C05 (COp false op sh cell per dims nv vdims vmap vals valid (Some (onv, oarr, ovdims, ovmap))) = true ->
+  exists r, c05_run op sh cell per dims nv vdims vmap vals valid = OK (onv, r) /\
+    length oarr = nprod (sh ++ [onv]) /\
+    forall i, inb (sh ++ [onv]) i = true ->
+      (Qabs (this (r i) - this (nth (ravel (sh ++ [onv]) i) (qcl oarr) 0%Qc))
+       <= c05_tol * c05_scale op sh cell vals)%Q.
+Proof. exact accepted_entry_close. Qed.
+Print Assumptions C05_check_scale_entries_sound.
+
+(* complex-valued fields: both parts were accepted *)
+Theorem C05_check_complex_sound : forall re im,
+  check_C05 (CBoth re im) = true -> check_C05 re = true /\ check_C05 im = true.
+Proof. exact check_both_sound. Qed.
+Print Assumptions C05_check_complex_sound.
+
+(* a whole shard: no failing index means every case was accepted *)
+Theorem C05_shard_verdict : forall cases k,
+  failing k (map check_C05 cases) = [] -> forall c, In c cases -> check_C05 c = true.
+Proof. exact (failing_nil_all check_C05). Qed.
+Print Assumptions C05_shard_verdict.
+
+(* ----- transfer: refusals, stated about the observed outcome (None = the call raised) ----- *)
+Theorem C05_accepted_grad_refuses_non_scalar : forall exact sh cell per dims nv vdims vmap vals valid obs,
+  check_C05 (COp exact OGrad sh cell per dims nv vdims vmap vals valid obs) = true ->
+  nv <> 1%nat -> obs = None.
+Proof. exact accepted_grad_refuses_non_scalar. Qed.
+Print Assumptions C05_accepted_grad_refuses_non_scalar.
+
+Theorem C05_accepted_div_refuses_nvdim_not_ndim : forall exact sh cell per dims nv vdims vmap vals valid obs,
+  check_C05 (COp exact ODiv sh cell per dims nv vdims vmap vals valid obs) = true ->
+  nv <> length sh -> obs = None.
+Proof. exact accepted_div_refuses_misfit. Qed.
+Print Assumptions C05_accepted_div_refuses_nvdim_not_ndim.
+
+Theorem C05_accepted_curl_refuses_not_3x3 : forall exact sh cell per dims nv vdims vmap vals valid obs,
+  check_C05 (COp exact OCurl sh cell per dims nv vdims vmap vals valid obs) = true ->
+  nv <> 3%nat \/ length sh <> 3%nat -> obs = None.
+Proof. exact accepted_curl_refuses_misfit. Qed.
+Print Assumptions C05_accepted_curl_refuses_not_3x3.
+
+Theorem C05_accepted_div_curl_refuse_unlabelled : forall exact op sh cell per dims nv vmap vals valid obs,
+  check_C05 (COp exact op sh cell per dims nv None vmap vals valid obs) = true ->
+  op = ODiv \/ op = OCurl -> obs = None.
+Proof. exact accepted_div_curl_refuse_unlabelled. Qed.
+Print Assumptions C05_accepted_div_curl_refuse_unlabelled.
+
+Theorem C05_accepted_div_refuses_unmapped_component : forall exact sh cell per dims nv vs vmap vals valid obs v,
+  check_C05 (COp exact ODiv sh cell per dims nv (Some vs) vmap vals valid obs) = true ->
+  In v vs -> unmapped dims vmap v -> obs = None.
+Proof. exact accepted_div_refuses_unmapped. Qed.
+Print Assumptions C05_accepted_div_refuses_unmapped_component.
+
+Example C05_accepted_refusal_instance :
+  check_C05 (COp true OGrad [2]%nat [1]%Q [false] ["x"%string] 2 None [] [0; 1; 2; 3]%Q [true; true] None) = true.
+Proof. exact accepted_refusal_instance. Qed.
+Print Assumptions C05_accepted_refusal_instance.
+
+(* ----- transfer: the textbook combinations, stated about the observed arrays (exact regime) ----- *)
+(* an accepted grad call had a scalar field and returned one component per axis; the observed entry (cell q,
+   component a) is C04's line operator on the grid line of the recorded values through q along axis a *)
+Theorem C05_accepted_grad_textbook : forall sh cell per dims nv vdims vmap vals valid onv oarr ovdims ovmap,
+  check_C05 (COp true OGrad sh cell per dims nv vdims vmap vals valid (Some (onv, oarr, ovdims, ovmap))) = true ->
+  nv = 1%nat /\ onv = length sh /\
+  forall (q : idx) a, inb sh q = true -> (a < length sh)%nat ->
+    nth (ravel (sh ++ [length sh]) (q ++ [a])) (qcl oarr) 0%Qc
+    = nth (nth a q 0%nat)
+          (diff_line QcOps 1 (nth a (qcl cell) 0%Qc) (nth a per false) true
+             (line (sh ++ [1%nat]) (comp QcOps 0 (c05f sh 1 vals)) a (q ++ [0%nat]))
+             (line sh (c05v sh valid) a q))
+          0%Qc.
+Proof. exact accepted_grad_textbook. Qed.
+Print Assumptions C05_accepted_grad_textbook.
+
+(* the observed divergence: component c is differentiated along the axis its LABEL is mapped to *)
+Theorem C05_accepted_div_textbook : forall sh cell per dims nv vdims vmap vals valid onv oarr ovdims ovmap,
+  check_C05 (COp true ODiv sh cell per dims nv vdims vmap vals valid (Some (onv, oarr, ovdims, ovmap))) = true ->
+  nv = length sh /\ onv = 1%nat /\
+  exists axes, fwd_axes vdims vmap dims = OK axes /\
+    forall (q : idx), inb sh q = true ->
+      nth (ravel (sh ++ [1%nat]) (q ++ [0%nat])) (qcl oarr) 0%Qc
+      = fsum QcOps (map (fun c => dax QcOps (c05M sh cell per) 1 (nth c axes 0%nat)
+                                    (comp QcOps c (c05f sh nv vals)) (c05v sh valid) (q ++ [0%nat]))
+                        (iota 0 (length axes))).
+Proof. exact accepted_div_textbook. Qed.
+Print Assumptions C05_accepted_div_textbook.
+
+(* the observed curl: result component k is along axis k, the operands are found through the reversed mapping *)
+Theorem C05_accepted_curl_textbook : forall sh cell per dims nv vdims vmap vals valid onv oarr ovdims ovmap,
+  check_C05 (COp true OCurl sh cell per dims nv vdims vmap vals valid (Some (onv, oarr, ovdims, ovmap))) = true ->
+  nv = 3%nat /\ length sh = 3%nat /\ onv = 3%nat /\
+  exists rc, rev_comps vdims vmap dims = OK rc /\
+    forall (q : idx) k, inb sh q = true -> (k < 3)%nat ->
+      nth (ravel (sh ++ [3%nat]) (q ++ [k])) (qcl oarr) 0%Qc
+      = (dax QcOps (c05M sh cell per) 1 ((k + 1) mod 3)
+             (comp QcOps (nth ((k + 2) mod 3) rc 0%nat) (c05f sh nv vals)) (c05v sh valid) (q ++ [0%nat])
+         - dax QcOps (c05M sh cell per) 1 ((k + 2) mod 3)
+             (comp QcOps (nth ((k + 1) mod 3) rc 0%nat) (c05f sh nv vals)) (c05v sh valid) (q ++ [0%nat]))%Qc.
+Proof. exact accepted_curl_textbook. Qed.
+Print Assumptions C05_accepted_curl_textbook.
+
+(* the observed Laplacian: per component, the sum of the second derivatives along all axes *)
+Theorem C05_accepted_laplace_textbook : forall sh cell per dims nv vdims vmap vals valid onv oarr ovdims ovmap,
+  check_C05 (COp true OLap sh cell per dims nv vdims vmap vals valid (Some (onv, oarr, ovdims, ovmap))) = true ->
+  onv = nv /\
+  forall (q : idx) c, inb sh q = true -> (c < nv)%nat ->
+    nth (ravel (sh ++ [nv]) (q ++ [c])) (qcl oarr) 0%Qc
+    = fsum QcOps (map (fun a => dax QcOps (c05M sh cell per) 2 a (comp QcOps c (c05f sh nv vals))
+                                  (c05v sh valid) (q ++ [0%nat]))
+                      (iota 0 (length sh))).
+Proof. exact accepted_laplace_textbook. Qed.
+Print Assumptions C05_accepted_laplace_textbook.
+
+(* labels of the observed results (both regimes) *)
+Theorem C05_accepted_laplace_keeps_labels : forall exact sh cell per dims nv vdims vmap vals valid onv oarr ovdims ovmap,
+  check_C05 (COp exact OLap sh cell per dims nv vdims vmap vals valid (Some (onv, oarr, ovdims, ovmap))) = true ->
+  (2 <= nv)%nat -> ovdims = vdims /\ soft_axes ovdims ovmap dims = soft_axes vdims vmap dims.
+Proof. exact accepted_laplace_keeps_labels. Qed.
+Print Assumptions C05_accepted_laplace_keeps_labels.
+
+Theorem C05_accepted_result_mapping_is_identity :
+  forall exact op sh cell per dims nv vdims vmap vals valid onv oarr ovdims ovmap,
+  check_C05 (COp exact op sh cell per dims nv vdims vmap vals valid (Some (onv, oarr, ovdims, ovmap))) = true ->
+  (op = OGrad /\ (2 <= length sh)%nat) \/ op = OCurl ->
+  soft_axes ovdims ovmap dims = map Some (iota 0 onv).
+Proof. exact accepted_result_mapping_is_identity. Qed.
+Print Assumptions C05_accepted_result_mapping_is_identity.
+
+(* ----- transfer: polynomial exactness on the observed gradient ----- *)
+(* a recorded validity list without a false entry is the fully valid mask the theorems ask for *)
+Theorem C05_recorded_mask_fully_valid : forall sh valid,
+  forallb (fun b => b) valid = true -> forall j, c05v sh valid j = true.
+Proof. exact all_valid. Qed.
+Print Assumptions C05_recorded_mask_fully_valid.
+
+Theorem C05_recorded_cell_in_mesh : forall sh cell per (q : idx),
+  inb sh q = true -> in_mesh QcOps (c05M sh cell per) q.
+Proof. exact inb_in_mesh. Qed.
+Print Assumptions C05_recorded_cell_in_mesh.
+
+(* C05_exact_grad_any_dimension on the observation: recorded values that sample a quadratic on the grid line
+   through cell q along a (fully valid, open, >= 3 cells) => the OBSERVED gradient component is the analytic
+   derivative at the cell centre *)
+Theorem C05_accepted_grad_exact_on_quadratic :
+  forall sh cell per dims nv vdims vmap vals valid onv oarr ovdims ovmap org (q : idx) a c0 c1 c2,
+  check_C05 (COp true OGrad sh cell per dims nv vdims vmap vals valid (Some (onv, oarr, ovdims, ovmap))) = true ->
+  forallb (fun b => b) valid = true -> good_axis QcOps (c05M sh cell per) a -> inb sh q = true ->
+  (forall j, (j < nth a sh 0)%nat ->
+     c05f sh nv vals (set_nth a j q ++ [0%nat]) = quad QcOps c0 c1 c2 (xc QcOps (c05M sh cell per) org a j)) ->
+  nth (ravel (sh ++ [onv]) (q ++ [a])) (qcl oarr) 0%Qc
+  = (c1 + f2 QcOps * c2 * xc QcOps (c05M sh cell per) org a (nth a q 0%nat))%Qc.
+Proof. exact accepted_grad_exact_on_quadratic. Qed.
+Print Assumptions C05_accepted_grad_exact_on_quadratic.
+
+Example C05_accepted_grad_exact_instance :
+  check_C05 (COp true OGrad [4]%nat [1#2]%Q [false] ["x"%string] 1 None []
+                 [1#16; 9#16; 25#16; 49#16]%Q [true; true; true; true]
+                 (Some (1%nat, [1#2; 3#2; 5#2; 7#2]%Q, None, []))) = true /\
+  good_axis QcOps (c05M [4]%nat [1#2]%Q [false]) 0 /\
+  forall j, (j < 4)%nat ->
+    c05f [4]%nat 1 [1#16; 9#16; 25#16; 49#16]%Q (set_nth 0 j [0%nat] ++ [0%nat])
+    = quad QcOps 0%Qc 0%Qc 1%Qc (xc QcOps (c05M [4]%nat [1#2]%Q [false]) [Q2Qc (1#4)] 0 j).
+Proof. exact accepted_grad_instance. Qed.
+Print Assumptions C05_accepted_grad_exact_instance.
+
+(* ----- transfer: the vector identities on chained observations -----
+   the array the implementation returned from the first call is the array the second call was given *)
+Theorem C05_accepted_curl_of_accepted_grad_zero :
+  forall sh cell per dims nv vdims vmap vals valid onv oarr ovdims ovmap
+         dims2 vdims2 vmap2 onv2 oarr2 ovdims2 ovmap2,
+  check_C05 (COp true OGrad sh cell per dims nv vdims vmap vals valid (Some (onv, oarr, ovdims, ovmap))) = true ->
+  check_C05 (COp true OCurl sh cell per dims2 onv vdims2 vmap2 oarr valid (Some (onv2, oarr2, ovdims2, ovmap2))) = true ->
+  forallb (fun b => b) valid = true -> rev_comps vdims2 vmap2 dims2 = OK [0; 1; 2]%nat ->
+  forall (q : idx) k, inb sh q = true -> (k < 3)%nat ->
+    nth (ravel (sh ++ [3%nat]) (q ++ [k])) (qcl oarr2) 0%Qc = 0%Qc.
+Proof. exact accepted_curl_of_accepted_grad_zero. Qed.
+Print Assumptions C05_accepted_curl_of_accepted_grad_zero.
+
+Theorem C05_accepted_div_of_accepted_curl_zero :
+  forall sh cell per dims nv vdims vmap vals valid onv oarr ovdims ovmap
+         dims2 vdims2 vmap2 onv2 oarr2 ovdims2 ovmap2,
+  check_C05 (COp true OCurl sh cell per dims nv vdims vmap vals valid (Some (onv, oarr, ovdims, ovmap))) = true ->
+  check_C05 (COp true ODiv sh cell per dims2 onv vdims2 vmap2 oarr valid (Some (onv2, oarr2, ovdims2, ovmap2))) = true ->
+  forallb (fun b => b) valid = true -> fwd_axes vdims2 vmap2 dims2 = OK [0; 1; 2]%nat ->
+  forall (q : idx), inb sh q = true ->
+    nth (ravel (sh ++ [1%nat]) (q ++ [0%nat])) (qcl oarr2) 0%Qc = 0%Qc.
+Proof. exact accepted_div_of_accepted_curl_zero. Qed.
+Print Assumptions C05_accepted_div_of_accepted_curl_zero.
+
+Example C05_accepted_curl_grad_instance :
+  let dims := ["a"; "b"; "c"]%string in
+  let valid := [true; true; true; true; true; true; true; true] in
+  let g := [10; 0; 1#2; -1; 0; 1#2; 8; 0; -1#2; 4; 0; -1#2; 10; 0; -9#4; -1; 0; -9#4; 8; 0; -3#2; 4; 0; -3#2]%Q in
+  let vd := Some ["p"; "q"; "s"]%string in
+  let vm := [("p", "a"); ("q", "b"); ("s", "c")]%string in
+  check_C05 (COp true OGrad [2; 2; 2]%nat [1#2; 1; 2]%Q [false; true; false] dims 1 None []
+                 [0; 1; 3; 2; 5; 1#2; 7; 4]%Q valid (Some (3%nat, g, vd, vm))) = true /\
+  check_C05 (COp true OCurl [2; 2; 2]%nat [1#2; 1; 2]%Q [false; true; false] dims 3 vd vm g valid
+                 (Some (3%nat, [0; 0; 0; 0; 0; 0; 0; 0; 0; 0; 0; 0; 0; 0; 0; 0; 0; 0; 0; 0; 0; 0; 0; 0]%Q, vd, vm))) = true /\
+  forallb (fun b => b) valid = true /\ rev_comps vd vm dims = OK [0; 1; 2]%nat.
+Proof. exact accepted_curl_grad_instance. Qed.
+Print Assumptions C05_accepted_curl_grad_instance.
+
+(* ----- scale regime: the observed entries are within the tolerance of the textbook combinations ----- *)
+Theorem C05_accepted_grad_close : forall sh cell per dims nv vdims vmap vals valid onv oarr ovdims ovmap,
+  check_C05 (COp false OGrad sh cell per dims nv vdims vmap vals valid (Some (onv, oarr, ovdims, ovmap))) = true ->
+  nv = 1%nat /\ onv = length sh /\
+  forall (q : idx) a, inb sh q = true -> (a < length sh)%nat ->
+    (Qabs (this (dax QcOps (c05M sh cell per) 1 a (comp QcOps 0 (c05f sh 1 vals)) (c05v sh valid) (q ++ [0%nat]))
+           - this (nth (ravel (sh ++ [length sh]) (q ++ [a])) (qcl oarr) 0%Qc))
+     <= c05_tol * c05_scale OGrad sh cell vals)%Q.
+Proof. exact accepted_grad_close. Qed.
+Print Assumptions C05_accepted_grad_close.
+
+Theorem C05_accepted_laplace_close : forall sh cell per dims nv vdims vmap vals valid onv oarr ovdims ovmap,
+  check_C05 (COp false OLap sh cell per dims nv vdims vmap vals valid (Some (onv, oarr, ovdims, ovmap))) = true ->
+  onv = nv /\
+  forall (q : idx) c, inb sh q = true -> (c < nv)%nat ->
+    (Qabs (this (fsum QcOps (map (fun a => dax QcOps (c05M sh cell per) 2 a (comp QcOps c (c05f sh nv vals))
+                                              (c05v sh valid) (q ++ [0%nat]))
+                                 (iota 0 (length sh))))
+           - this (nth (ravel (sh ++ [nv]) (q ++ [c])) (qcl oarr) 0%Qc))
+     <= c05_tol * c05_scale OLap sh cell vals)%Q.
+Proof. exact accepted_laplace_close. Qed.
+Print Assumptions C05_accepted_laplace_close.
+
+Example C05_accepted_grad_close_instance :
+  check_C05 (COp false OGrad [3]%nat [1#10]%Q [false] ["x"%string] 1 None [] [0; 1#10; 2#10]%Q [true; true; true]
+                 (Some (1%nat, [1; 1 + (1#1000000000000); 1]%Q, None, []))) = true.
+Proof. exact accepted_grad_close_instance. Qed.
+Print Assumptions C05_accepted_grad_close_instance.
